@@ -4,3 +4,10 @@ import DnsVerif.Props.C19
 #print axioms DnsVerif.Props.C19.window_keeps_live
 #print axioms DnsVerif.Props.C19.export_spec
 #print axioms DnsVerif.Props.C19.export_empty
+#print axioms DnsVerif.Props.C19.query_and_type_counted_once
+#print axioms DnsVerif.Props.C19.write_counters_truthful
+#print axioms DnsVerif.Props.C19.outcome_counted_at_most_once
+#print axioms DnsVerif.Props.C19.logged_once_iff_composed
+#print axioms DnsVerif.Props.C19.cache_counter_follows_path
+#print axioms DnsVerif.Props.C19.counter_sum
+#print axioms DnsVerif.Props.C19.fixed_names_injective
